@@ -1,2 +1,70 @@
-(* placeholder *)
-From Snow Require Import Model.Broker.
+(* C04 — Every broker request completes in bounded time; no ghost proxies.
+   Over Model/Broker.v (see Properties/C02.v). Time is abstracted: a timer may fire at any step after
+   it was armed (and in the implementation fires at the latest 10 s after); "bounded time" becomes
+   "bounded number of the request's own steps, each of them enabled". Version V1 is the code after the
+   fix "broker requests could block forever around the proxy and client timeouts"; V0 is the pinned code. *)
+From Coq Require Import List NArith ZArith Bool Arith.
+From Snow Require Import Model.Broker Proofs.BrokerProofs Proofs.BrokerSteps Proofs.BrokerThms.
+Import ListNotations.
+Open Scope N_scope.
+
+(* Progress: in every reachable state of the repaired broker every pending request (poll handler or its
+   waiter, the matched client, an answer request in flight) has an enabled step of its own. *)
+Theorem C04_progress : forall br s p e,
+  reachable V1 br s -> nth_error (entries s) p = Some e -> entry_pending e = true ->
+  exists l, internal l = true /\ target l = Some p /\ step V1 s l <> None.
+Proof. exact progress_v1. Qed.
+
+(* Boundedness: every step of the broker's own threads consumes budget; a run without new arrivals has
+   at most [budget s] steps (at most 9 per registered poll plus one per pending answer request). *)
+Theorem C04_step_consumes_budget : forall s l s',
+  internal l = true -> step V1 s l = Some s' -> (budget s' < budget s)%nat.
+Proof. exact internal_step_decreases. Qed.
+
+Theorem C04_bounded_completion : forall br ls s s',
+  reachable V1 br s -> forallb internal ls = true -> run V1 s ls = Some s' ->
+  (length ls + budget s' <= budget s)%nat.
+Proof. exact bounded_completion. Qed.
+
+(* ... and such a run can only stop when nothing is pending any more. *)
+Theorem C04_stops_only_when_quiescent : forall br s,
+  reachable V1 br s -> (forall l, internal l = true -> step V1 s l = None) -> quiescent s = true.
+Proof. exact stuck_only_when_quiescent. Qed.
+
+(* Once all requests have completed nothing is left behind: the id map is empty, no entry is in a heap,
+   the available-proxies gauge is zero, no entry is eligible for any client ... *)
+Theorem C04_quiescent_clean : forall v br s, reachable v br s -> quiescent s = true ->
+  idmap s = [] /\ count_inheap s = 0%nat /\ gauge s = 0%Z /\
+  (forall n e, In e (entries s) -> eligible n e = false).
+Proof. exact quiescent_clean. Qed.
+
+(* ... so a fresh client (naming a known bridge) is told there are no proxies. *)
+Theorem C04_fresh_client_refused : forall v br s n fp o ch s',
+  reachable v br s -> quiescent s = true -> lookup fp br <> None ->
+  step v s (L_Client n fp o ch) = Some s' ->
+  ch = None /\ done_clients s' = (next_cid s, n, fp, o, CNoProxies) :: done_clients s.
+Proof. exact fresh_client_refused. Qed.
+
+(* The pinned protocol violated the property: after the schedule "poll; its timer fires and the waiter
+   commits to the timeout; a client pops the entry; the waiter's critical section finds index = -1" the
+   client poll and the proxy poll stay blocked along EVERY continuation ... *)
+Theorem C04_v0_refuted_timeout_match :
+  exists s, run V0 (init [(7, 9)]) f1_trace = Some s /\
+    forall ls s', run V0 s ls = Some s' ->
+      exists e c, nth_error (entries s') 0 = Some e /\ e_w e = W_Stuck /\ e_cl e = Some c /\ c_pc c = C_Send
+                  /\ entry_pending e = true /\ quiescent s' = false.
+Proof. exact v0_timeout_match_blocks_forever. Qed.
+
+(* ... and an answer posted for a registered but unmatched poll that then expires blocks its request forever. *)
+Theorem C04_v0_refuted_answer :
+  exists s, run V0 (init [(7, 9)]) f2_trace = Some s /\
+    forall ls s', run V0 s ls = Some s' ->
+      exists e, nth_error (entries s') 0 = Some e /\ e_senders e <> [] /\ quiescent s' = false.
+Proof. exact v0_answer_blocks_forever. Qed.
+
+(* The same schedules complete under the repaired protocol (non-vacuity of the V1 theorems). *)
+Example C04_v1_same_schedules_complete :
+  (exists s, run V1 (init [(7, 9)])
+     (f1_trace ++ [L_RvOffer 0; L_RvForward 0; L_FireC 0; L_CTake 0; L_CCleanup 0]) = Some s /\ quiescent s = true) /\
+  (exists s, run V1 (init [(7, 9)]) (f2_trace ++ [L_AnswerPut 0]) = Some s /\ quiescent s = true).
+Proof. split; [exact v1_timeout_match_completes | exact v1_answer_completes]. Qed.
